@@ -206,12 +206,12 @@ func Harness_C04_HandlerStall() {
 	b.drain()
 	c.send(&wamp.Subscribe{Request: 2, Topic: "b.", Options: wamp.Dict{"match": "prefix"}})
 	c.drain()
-	req := vChoice("request", 3)
+	req := vChoice("request", 5)
 	k := vChoice("stall-after", 9)
 	ev := vChoice("event", 5)
 	// the descheduled goroutine: a session's message handler, or the broker /
 	// dealer worker in the middle of routing
-	fn := []string{"handleInboundMessages", "syncPublish", "syncCall"}[vChoice("stalled-function", 3)]
+	fn := []string{"handleInboundMessages", "syncPublish", "syncCall", "metaProcedureHandler"}[vChoice("stalled-function", 4)]
 	vStallFunc(fn, k)
 	sent := make(chan struct{})
 	go func() {
@@ -224,6 +224,10 @@ func Harness_C04_HandlerStall() {
 			m = &wamp.Call{Request: 5, Procedure: "b.proc", Options: wamp.Dict{"timeout": 200}}
 		case 2:
 			m = &wamp.Subscribe{Request: 5, Topic: "b.topic"}
+		case 3: // meta procedures: served by the realm's meta session
+			m = &wamp.Call{Request: 5, Procedure: wamp.MetaProcSessionCount}
+		case 4:
+			m = &wamp.Call{Request: 5, Procedure: wamp.MetaProcRegListCallees, Arguments: wamp.List{wamp.ID(1)}}
 		}
 		select {
 		case a.peer.Send() <- m:
